@@ -10,5 +10,6 @@ def run(tier, seed):
     # arrives whole and ends cleanly - no half-written response
     import livetls
     livetls.run_whole_responses(res, tier, "C01")
+    livetls.run_unrouted_paths(res, tier, "C01")
     res.rule += " | live: start_server on both TLS backends, 5 MiB (thorough 12 MiB) static file read after a 1 s delay, a small file and a 51"
     return res
